@@ -26,11 +26,15 @@ THEOREMS += ['CC.C01_gen_values', 'CC.C01_gen_predicates', 'CC.C01_gen_isfinite'
     'CC.C01_gen_power', 'CC.C01_gen_solution_vector']
 LEAN_MODULE_EXTRA = ['CC.Proofs.Solvable', 'CC.Properties.C01Gen', 'CC.Properties.C01Det']
 THEOREMS += ['CC.C01_det_ne_zero', 'CC.C01_det_iff', 'CC.C01_exists']
-# round 5: kernel-checked self-loop counterexample over Q (CC/Properties/C01More.lean)
-LEAN_MODULE_EXTRA += ['CC.Properties.C01More']
-THEOREMS += ['CC.C01_self_loop_counterexample', 'CC.C01_sound_needs_no_self_loop', 'CC.C01_complete_needs_no_self_loop']
+# self-loop branches (repaired in node_analysis.py): the witness worked out over Q (CC/Properties/C01More.lean) and the
+# theorems without the hypothesis WF.no_self_loop (CC/Properties/C01SelfLoop.lean)
+LEAN_MODULE_EXTRA += ['CC.Properties.C01More', 'CC.Properties.C01SelfLoop']
+THEOREMS += ['CC.C01_self_loop_witness', 'CC.sound_all', 'CC.kcl_identity_all', 'CC.complete_rows_all',
+             'CC.C01_sound_selfloops', 'CC.C01_kcl_reference_selfloops', 'CC.C01_complete_selfloops',
+             'CC.C01_matrix_unique_selfloops', 'CC.C01_reported_is_the_solution_selfloops', 'CC.C01_solvable_selfloops',
+             'CC.C01_exists_selfloops', 'CC.C01_selfloop_voltage_source']
 OPEN_STATEMENTS = [
-    'C01_sound / C01_complete without the hypothesis WF.no_self_loop: FALSE for the current code (open finding: a self-loop branch is added to the diagonal) — now kernel-checked on the corpus network I(1,0)=1, R(1,0)=2, S(1,1)=2 over Q: C01_self_loop_counterexample (model reports phi1 = -1, KCL residual 1/2 at node 1; the circuit equations have the solution phi1 = -2), C01_sound_needs_no_self_loop, C01_complete_needs_no_self_loop; the provable versions are C01_sound / C01_complete with Net.WF; no theorem describes what the code computes on self-loop networks in general (one witness only); the real code and the executable model are run on self-loop networks on every run',
+    'self-loop branches: C01_sound_selfloops / C01_complete_selfloops / C01_matrix_unique_selfloops / C01_exists_selfloops hold for every network Network.__post_init__ accepts (N.check = ok) — admittances, impedances, open circuits and current sources from a node to itself are ordinary inputs, judged by the Spec oracle on every run; a self-loop ideal voltage source / short circuit is not well-posed (C01_selfloop_voltage_source: solvable only for V = 0, and then its own current is undetermined) and stays outside the domain like every other ill-posed network (singular matrix, solver fallback not judged); C01_sound / C01_complete keep their statements with Net.WF (downstream theorems of C02–C06, C09–C12, C16 carry it)',
     'the reference-direction convention of linear sources (shipped examples 3 and 14) is part of the Spec (Elem.lawResidual) and pinned by the harness corpus; the C01_examples theorem of the plan (DESIGN §5) was not written',
 ]
 ASSUMPTIONS = [
@@ -282,7 +286,8 @@ CORPUS = [
                              dict(n1='b', n2='a', id='A1', kind='admittance', args=dict(Y=complex(0.25, -0.5))),
                              dict(n1='a', n2='c', id='M', kind='impedance', args=dict(Z=complex(0, 2))),
                              dict(n1='c', n2='b', id='B', kind='vs_ideal', args=dict(V=complex(0, 4)))]),
-    # a self-loop branch is electrically inert (no incidence); the exact tableau gives φ(1) = −2
+    # a self-loop branch is electrically inert (no incidence); the exact tableau gives φ(1) = −2 (before the self-loop
+    # repair of node_analysis.py the diagonal counted S and the solver reported −1; Lean: C01_self_loop_witness)
     dict(zero='0', branches=[dict(n1='1', n2='0', id='I', kind='cs_ideal', args=dict(I=1.0)),
                              dict(n1='1', n2='0', id='R', kind='resistor', args=dict(R=2.0)),
                              dict(n1='1', n2='1', id='S', kind='resistor', args=dict(R=2.0))]),
@@ -290,12 +295,14 @@ CORPUS = [
 
 def with_self_loops(rng, desc):
     """the same network plus 1–2 branches whose two terminals are the same node (passive element, open circuit,
-    short circuit or ideal current source): electrically inert, the solution of the rest must not change"""
+    short circuit, ideal or linear current source, linear voltage source): ordinary inputs of the property since the
+    self-loop repair — electrically inert, judged by the Spec oracle like every other network (a self-loop short
+    circuit leaves its own current undetermined: the spec tableau is singular and the case counts as ill-posed)"""
     d = dict(zero=desc['zero'], branches=[dict(b, args=dict(b['args'])) for b in desc['branches']])
     labels = sorted({b['n1'] for b in d['branches']} | {b['n2'] for b in d['branches']})
     for k in range(rng.randint(1, 2)):
         n = rng.choice(labels)
-        kind = rng.choice(['resistor', 'admittance', 'impedance', 'conductor', 'open', 'short', 'cs_ideal'])
+        kind = rng.choice(['resistor', 'admittance', 'impedance', 'conductor', 'open', 'short', 'cs_ideal', 'cs_lossy', 'vs_lossy'])
         d['branches'].insert(rng.randrange(len(d['branches']) + 1), dict(n1=n, n2=n, id=f'loop{k}', kind=kind, args=gen_net.gen_args(rng, kind)))
     return d
 
